@@ -21,7 +21,10 @@ def gen_chrom(rng, name, ids, broken=None):
         i = next(ids)
         L = rng.randint(1, 6)
         extra = rng.choice([[], ["XT:Z:a:b c"], ["x1:i:-5", "zz:f:1e-3"]])
-        segs.append([i, sn, so, sr, gen.rseq(rng, L), extra])
+        seq = gen.rseq(rng, L)
+        if rng.random() < 0.15:
+            seq = "".join(c.lower() if rng.random() < 0.5 else c for c in seq)     # soft-masked bases are valid GFA
+        segs.append([i, sn, so, sr, seq, extra])
         return i, L
 
     def link(a, da, b, db):
@@ -364,8 +367,21 @@ def main(prop):
                         if canon(other.get(c)) != canon(res["files"].get(c)):
                             ck.violation("output for %s differs under PYTHONHASHSEED=%d" % (c, hs), dict(replay, hashseed=hs, chromosome=c))
                             break
-            if prop == "C07":
+            if prop == "C07" or (prop == "C18" and it % 3 == 0):
                 complete_check(ck, gtext, order, with_seq, res, tmp, replay)
+            if prop == "C18" and any(broken.values()):
+                # a request that names only chromosomes that cannot be ordered: nothing is written, the command still completes,
+                # with and without --by-chrom
+                bad = [c for c in order if c not in res["files"]]
+                if bad and it % 2 == 0:
+                    for bc in (True, False):
+                        resb = run_order(gtext, bad, with_seq, bc, tmp)
+                        ck.count("only-unorderable-requested")
+                        if resb["outcome"] != "ok":
+                            ck.violation("order_gfa did not complete normally when every requested chromosome is skipped (by_chrom=%s): %s" % (
+                                bc, resb.get("exc") or "exit %s" % resb.get("code")), dict(replay, order=bad, by_chrom=bc))
+                        elif any(t.strip() for t in resb["files"].values()) or any(t.strip() for t in resb["csv"].values()):
+                            ck.violation("something was written although every requested chromosome is skipped (by_chrom=%s)" % bc, dict(replay, order=bad, by_chrom=bc))
             if prop == "C18" and any(broken.values()):
                 good = [c for c in order if c in res["files"]]
                 if good and len(good) < len(order):
@@ -374,6 +390,9 @@ def main(prop):
                         ck.violation("the written chromosomes differ from a run in which the skipped ones are absent from the request", dict(replay, good=good))
         if prop == "C07":
             roundtrip_io(ck, tmp, 150 if quick else 4000)
+        if prop in ("C06", "C07"):
+            for _ in range(1 if quick else 4):
+                big_case(ck, prop, tmp)
     finally:
         shutil.rmtree(tmp, ignore_errors=True)
     if prop == "C06":
@@ -386,6 +405,68 @@ def main(prop):
         "C18": "same generator with tips / three cut vertices on a cycle / haplotype tail at random chromosomes and positions; written files compared with a run from which the skipped chromosomes are removed; non-trivial = at least one skipped and one ordered chromosome",
     }[prop]
     return ck.finish()
+
+
+def big_chain(rng, name, nb, ids):
+    """a long chain of SNP bubbles: 3*nb+1 segments, 4*nb links"""
+    segs, links = [], []
+
+    def new(sn, so, sr):
+        i = next(ids)
+        segs.append([i, sn, so, sr, gen.rseq(rng, 2), []])
+        return i
+    so = 0
+    prev = new(name, so, 0)
+    for b in range(nb):
+        r = new(name, so + 2, 0)
+        h = new("%s_h%d" % (name, b), 5, 1)
+        nxt = new(name, so + 4, 0)
+        so += 4
+        for x in (r, h):
+            links.append((prev, "+", x, "+", 0, []))
+            links.append((x, "+", nxt, "+", 0, []))
+        prev = nxt
+    return segs, links
+
+
+def big_case(ck, prop, tmp):
+    """a file of several thousand S and L lines (more than any plausible internal batch), lines in S-first, L-first and shuffled
+    order: the tags must be those of the Lean model (orderRun; the definition-level specification is not evaluated at this
+    size - that the model meets it is the theorem orderRun_chain) and must not depend on the order of lines"""
+    rng = ck.rng
+    ids = idgen("s")
+    s1, l1 = big_chain(rng, "chrB", 3, ids)
+    s2, l2 = big_chain(rng, "chrA", rng.randint(1050, 1200), ids)
+    segs, links = s1 + s2, l1 + l2
+    order = ["chrB", "chrA"]
+    base = text(rng, segs, links, stale=False, shuffle=False).splitlines()
+    S = [l for l in base if l.startswith("S")]
+    L = [l for l in base if l.startswith("L")]
+    sh = base[:]
+    rng.shuffle(sh)
+    variants = {"S-first": S + L, "L-first": L + S, "shuffled": sh}
+    tags = {}
+    for name, lines in variants.items():
+        gtext = "\n".join(lines) + "\n"
+        res = run_order(gtext, order, False, True, tmp)
+        ck.case({"big": name, "segments": len(S), "links": len(L)}, True, sample={"layout": name, "segments": len(S), "links": len(L)})
+        ck.count("big-file:%s" % name)
+        replay = {"layout": name, "gfa": gtext, "order": order}
+        if res["outcome"] != "ok":
+            ck.violation("order_gfa did not complete normally on a large file (%s): %s" % (name, res.get("exc") or "exit %s" % res.get("code")), replay)
+            return
+        impl = [{"name": c, "out": tokenize_gfa(res["files"][c]) if c in res["files"] else None} for c in order]
+        tags[name] = {x["name"]: sorted([sg["id"], int(dict((t[0], t[2]) for t in sg["tags"])["BO"]), int(dict((t[0], t[2]) for t in sg["tags"])["NO"])] for sg in x["out"]["segs"]) for x in impl if x["out"]}
+        if name != "S-first" and tags[name] != tags["S-first"]:
+            miss = {c: len(tags["S-first"].get(c, [])) - len(tags[name].get(c, [])) for c in order}
+            ck.violation("BO/NO depend on the order of lines in a large file (%s vs S-first; nodes missing per chromosome: %s)" % (name, miss), replay)
+            return
+        if name == "shuffled":
+            r = ck.driver([{"op": "order.run", "gfa": tokenize_gfa(gtext), "order": order, "with_seq": False, "impl": impl, "big": True}])[0]
+            model = r["model"]
+            mt = {w["name"]: sorted(w["tags"]) for w in model.get("written", [])}
+            if "crash" in model or mt != tags[name]:
+                ck.disagreement("large file: written chromosomes / tags differ from the model's", {"layout": name, "order": order, "model_keys": sorted(mt), "impl_keys": sorted(tags[name])})
 
 
 def k2_witness():
